@@ -22,6 +22,7 @@ broadcast use {axiom_string_ext, axiom_str_ext, axiom_str_of, axiom_vec_ext, axi
 //@include spec/nathead_spec.rs
 //@include spec/natrule_spec.rs
 //@include spec/nathead2_spec.rs
+//@include spec/natfinal_spec.rs
 
 pub mod fol { pub use super::*; }
 
